@@ -58,3 +58,12 @@ chk("C05",
     "target shares its memory (or .shape assignment to its memory owner)', which is the reading under which C06 (view grad = view of "
     "base grad) and C05 are jointly satisfiable.",
     "exhaustive program enumeration + symbolic execution + SMT equivalence against derivative of functional NumPy twin", "DESIGN §3 C05")
+chk("C09",
+    "Histories are the enumerated input: 4 graph shapes in which L shares a leaf, a view or an intermediate with a second result, times "
+    "every sequence of <=3 events (thorough: + strided 4-event sequences) from {backward / clear_graph on the other result, in-place "
+    "update of the shared tensor or of a view of it, re-use of a shared tensor in a new op or view, null_grad}, then L.backward(). "
+    "Data are symbolic; the outcome must be InvalidBackprop or, decided by z3 for all real inputs, every gradient equals the "
+    "derivative of the computation as recorded (NumPy-twin oracle with cut variables, as C05). Known finding F1/F7 is keyed by the "
+    "history pattern clear -> re-use and printed as KNOWN-FINDING; any other silent wrong gradient is a VIOLATION.",
+    "Trusted: reference differentiator, NumPy twin. Histories beyond the bound and more than three graphs are outside.",
+    "exhaustive history enumeration + symbolic execution + SMT equivalence against recorded forward term", "DESIGN §3 C09")
